@@ -443,3 +443,6 @@ def run(ctx):
     # local entries of both styles and the SHARED ones - before it makes a type is decided by C13.R12
     from . import c13
     c13.r12_every_definition_looks_at_the_shared_names(ctx, "C07.R7")
+    # the letter table is indexed through one folding index function; a DEFtype range is written as an index
+    # interval (an audited panic of the index function - `Not a latin letter` - relies on it)
+    c13.r3_default_types(ctx, "C07.R8")
